@@ -282,3 +282,23 @@ Definition pmf_int_uniform (lo hi v : Z) : Q := inject_Z (Z.of_nat (count_val v 
 Definition pmf_cat (cats : list atom) (a : atom) : Q :=
   inject_Z (Z.of_nat (length (filter (atom_eqb a) cats))) / inject_Z (Z.of_nat (length cats)).
 Definition cdf_real_uniform (lo hi x : Q) : Q := (x - lo) / (hi - lo).
+
+(* ---------------------------------------------- ConfigSpace path of Space.rvs, RandomSearch._ask, CBO._to_dict ---------------------------------------------- *)
+(* A sampled configuration [conf] holds values for the ACTIVE hyperparameters only.  The point handed out has one entry per name of
+   the container, in its order: the sampled value when there is one - WHATEVER it is (0, 0.0, False, "" included) - else the
+   inactive value: lower bound / first category. *)
+Definition inactive_value (s : dspec) : option atom :=
+  match s with SInt lo _ _ => Some (AInt lo) | SReal lo _ _ => Some (AFloat lo) | SCats (c :: _) => Some c | SCats [] => None end.
+Fixpoint lookup_atom (n : Z) (conf : list (Z * atom)) : option atom :=
+  match conf with [] => None | (k, v) :: t => if n =? k then Some v else lookup_atom n t end.
+Definition cs_value (specs : Z -> option dspec) (conf : list (Z * atom)) (n : Z) : option atom :=
+  match lookup_atom n conf with
+  | Some v => Some v
+  | None => match specs n with Some s => inactive_value s | None => None end
+  end.
+Definition cs_point (names : list Z) (specs : Z -> option dspec) (conf : list (Z * atom)) : list (option atom) :=
+  map (cs_value specs conf) names.
+(* CBO._to_dict / the harness: names zipped with the point *)
+Definition to_dict (names : list Z) (point : list (option atom)) : list (Z * option atom) := combine names point.
+Fixpoint lookup_opt (n : Z) (d : list (Z * option atom)) : option (option atom) :=
+  match d with [] => None | (k, v) :: t => if n =? k then Some v else lookup_opt n t end.
